@@ -1,8 +1,10 @@
 package rhp
 
 import (
+	"bytes"
 	"context"
 	"crypto/ed25519"
+	"encoding/binary"
 	"encoding/json"
 	"errors"
 	"fmt"
@@ -22,7 +24,33 @@ import (
 const (
 	maxRequestSize        = 4096     // 4 KiB
 	maxProgramRequestSize = 20 << 20 // 20 MiB
+
+	// maxProgramInstructions is the number of instructions a request of
+	// maxProgramRequestSize bytes can hold: every encoded instruction is at
+	// least a specifier and a length prefix.
+	maxProgramInstructions = maxProgramRequestSize / 24
 )
+
+// An executeProgramRequest is an rhp3.RPCExecuteProgramRequest that validates
+// the instruction count before the program is allocated. The count is chosen by
+// the renter and is not bounded by the size of the request otherwise.
+type executeProgramRequest struct {
+	rhp3.RPCExecuteProgramRequest
+}
+
+// DecodeFrom implements rhp3.ProtocolObject.
+func (r *executeProgramRequest) DecodeFrom(d *types.Decoder) {
+	var header [40]byte // contract ID and instruction count
+	if _, err := d.Read(header[:]); err != nil {
+		return
+	} else if n := binary.LittleEndian.Uint64(header[32:]); n > maxProgramInstructions {
+		d.SetErr(fmt.Errorf("program has too many instructions: %d > %d", n, maxProgramInstructions))
+		return
+	}
+	inner := types.NewDecoder(io.LimitedReader{R: io.MultiReader(bytes.NewReader(header[:]), d), N: maxProgramRequestSize + maxRequestSize})
+	r.RPCExecuteProgramRequest.DecodeFrom(inner)
+	d.SetErr(inner.Err())
+}
 
 var (
 	// ErrTxnMissingContract is returned if the transaction set does not contain
@@ -470,7 +498,7 @@ func (sh *SessionHandler) handleRPCExecute(s *rhp3.Stream, log *zap.Logger) (con
 
 	// read the program request
 	readReqStart := time.Now()
-	var executeReq rhp3.RPCExecuteProgramRequest
+	var executeReq executeProgramRequest
 	if err := s.ReadRequest(&executeReq, maxProgramRequestSize); err != nil {
 		return contracts.Usage{}, fmt.Errorf("failed to read execute request: %w", err)
 	}
